@@ -9,8 +9,9 @@ TEXT = {
  'C19': ('for every generated line: upper-case registers, lower-case size keywords, extra blanks/tabs, hexadecimal and signed numbers, index-first and displacement-first term order, disp[reg] form, st(0) for st, and the AT&T transliteration must yield the same SET of candidates', 'bounded metamorphic contract on asm/asm_att; the term algebra dict_add/dict_sub/dict_mul IS verified from its AST for all integer coefficients over every key shape (SMT-A, checks/C19smt.py)'),
 }
 def _smt(run):
-    from checks import C19smt
+    from checks import C19smt, asmsse
     C19smt.ob_smt(run)
+    asmsse.ob(run, 'C19')       # spellings of the MMX/SSE lines
 
 if __name__ == '__main__':
     sys.exit(asmfam.run_family('C19', sys.argv[1:], 'other', RULE + '; ' + TEXT['C19'][0], TEXT['C19'][1],
